@@ -279,6 +279,15 @@ def observe_connect(impl):
                       for c in impl["comps"]]}
 
 
+def _no_refine(spec):
+    """a producer that hands over a newer state in every connect call publishes a value that depends on the number of
+    calls made before — on the listing order, by construction of the harness component; outside C05's statement"""
+    for cs in spec["comps"]:
+        for y in cs["outs"]:
+            y.pop("refine", None)
+    return spec
+
+
 def check_connect(ctx, spec, res, k, do_model=True):
     n = len(spec["comps"])
     nl = sum(len(cs["ins"]) for cs in spec["comps"])
@@ -367,7 +376,7 @@ def run(ctx, res):
     for spec in c06e.corpus():
         check_connect(ctx, spec, res, 6)
     for _ in range(ctx.n(160, 1500)):
-        spec = c06e.gen_case(ctx.rng)
+        spec = _no_refine(c06e.gen_case(ctx.rng))
         check_connect(ctx, spec, res, ctx.n(4, 6))
     # the package's own callback components, with callbacks that count their calls, under all listings
     for _ in range(ctx.n(40, 300)):
@@ -395,7 +404,7 @@ def search(ctx, res, divergences, broken):
             return
     for i in range(ctx.n(500, 6000)):
         if i % 3 == 2:
-            check_connect(ctx, c06e.gen_case(ctx.rng), res, 6, do_model=False)
+            check_connect(ctx, _no_refine(c06e.gen_case(ctx.rng)), res, 6, do_model=False)
         else:
             check_sched(ctx, gen_sched(ctx), res, 8, do_model=False)
         if any(f.get("signature") is None for f in res.failures):
